@@ -202,7 +202,34 @@ def gate_names(facts):
     ms = vr.methods(facts)
     upd = [b for b in ms if b.argc == 3 and b.local_ty(0) == 'bool' and b.local_ty(1).startswith('&mut') and b.local_ty(2) == 'usize']
     pred = [b for b in ms if b.argc == 2 and b.local_ty(0) == 'bool' and not b.local_ty(1).startswith('&mut') and b.local_ty(2).endswith('HLCTimestamp')]
-    return (last_seg(pred[0].name) if len(pred) == 1 else None), (last_seg(upd[0].name) if len(upd) == 1 else None)
+    pn = last_seg(pred[0].name) if len(pred) == 1 else None
+    un = last_seg(upd[0].name) if len(upd) == 1 else None
+    if pn is None or un is None:
+        # not identified by signature among NodeVersions' own methods (a provided method of a private trait, a helper type): by what the
+        # SET asks its version vectors — the questions `will_apply` asks are the cut-off predicate, what a mutator asks beyond them the update
+        try:
+            import orswot_abs
+            roles = orswot_abs.Roles(facts)
+            wa = roles.method(facts, 'will_apply')
+            mu = roles.method(facts, 'insert_with_source')
+            if wa is not None and mu is not None:
+                def labels(body):
+                    out = set()
+                    for (_pre, log) in orswot_abs.summarize_mutator(facts, roles, body):
+                        for ent in log:
+                            lab = ent[0] if isinstance(ent, tuple) else ent
+                            if isinstance(lab, str) and lab.startswith('versions') and '.' in lab:
+                                out.add(lab.rsplit('.', 1)[1])
+                    return out
+                wl = labels(wa)
+                ml = labels(mu) - wl
+                if pn is None and len(wl) == 1:
+                    pn = next(iter(wl))
+                if un is None and len(ml) == 1:
+                    un = next(iter(ml))
+        except Exception:
+            pass
+    return pn, un
 
 
 def classify(log, pred, upd):
